@@ -283,6 +283,44 @@ def path_special(c, job, mt, ntcore):
         c.prove("C09.key no-other-topics", set(ntcore.STORE.values) == {f"/components/{n}/{a}" for n in ("n1", "n2") for a in ("a", "n")},
                 info=dict(got=sorted(ntcore.STORE.values)))
         return
+    if what == "falsy-owner":
+        # a component that is container-like: its truth value changes over time (empty queue = falsy)
+        class Queue:
+            depth = mt.tunable(4)
+            gain = mt.tunable(0.5)
+
+            def __init__(self):
+                self.items = []
+
+            def __len__(self):
+                return len(self.items)
+
+        q = Queue()
+        mt.setup_tunables(q, "q", "components")
+        m = {"depth": 4, "gain": 0.5}
+        c.reach("falsy-owner")
+        for i in range(job["K"]):
+            sel = c.choose(f"op{i}", 4)
+            if sel == 0:
+                q.items.append(i)
+            elif sel == 1:
+                del q.items[:]
+            elif sel == 2:
+                v = c.real(f"w{i}", -1000, 1000)
+                q.gain = v
+                m["gain"] = v
+            else:
+                v = c.integer(f"n{i}", -1000, 1000)
+                ntcore.NetworkTableInstance.getDefault().getEntry("/components/q/depth").set(v)
+                m["depth"] = v
+            for a in ("depth", "gain"):
+                try:
+                    got = getattr(q, a)
+                except Exception as e:
+                    got = f"<read failed: {type(e).__name__}>"
+                ok = _same(got, m[a]) if not isinstance(got, mt.tunable) else False
+                c.prove("C09.rw read-returns-latest-from-either-side", ok, info=dict(step=i, attr=a, owner_truthy=bool(q.items), got=str(type(got).__name__)))
+        return
     # falsy / empty defaults: the writeDefault rule does not depend on the value of the default
     i = c.choose("default", len(EMPTY_DEFAULTS))
     default, hint, pre = EMPTY_DEFAULTS[i]
@@ -330,14 +368,15 @@ class C09(Spec):
         j += [dict(kind="rw", owner=o, subtable=s, type=t, K=K) for o, s, t in combos]
         j += [dict(kind="rw", owner="components", subtable=None, type="int", K=1, redefine=True),
               dict(kind="rw", owner="robot", subtable="s", type="float", K=1, redefine=True)]
-        j += [dict(kind="special", what="equal-owners", K=3 if tier == "quick" else 5), dict(kind="special", what="falsy-default")]
+        j += [dict(kind="special", what="equal-owners", K=3 if tier == "quick" else 5), dict(kind="special", what="falsy-default"),
+              dict(kind="special", what="falsy-owner", K=3 if tier == "quick" else 5)]
         return j
 
     def bounds(self, tier):
         return dict(K=4 if tier == "quick" else 5, jobs=self.jobs(tier), values="symbolic real/int/bool per write; strings concrete tokens")
 
     def reach_required(self, tier):
-        return ["type-table", "preexisting-value", "existing-preserved", "existing-overwritten", "py-write", "nt-write", "redefined-tunable", "equal-owners", "falsy-default-with-existing-value"]
+        return ["type-table", "preexisting-value", "existing-preserved", "existing-overwritten", "py-write", "nt-write", "redefined-tunable", "equal-owners", "falsy-default-with-existing-value", "falsy-owner"]
 
     def extra(self, tier, seed):
         from real.run import nt_contract
